@@ -33,10 +33,11 @@ class Runner:
             self.sc, self.objs = build_api(spec)
         else:
             self.sc, self.objs = build_yaml(spec)
-        self.tid_of = {id(o): i for i, o in enumerate(self.objs)}
+        self.tid_of = {id(o): spec['transitions'][i].get('tid', i) for i, o in enumerate(self.objs)}
         self.event = event
         self.extra_context = extra_context or {}
         self.interp_kwargs = interp_kwargs or {}
+        self.leftover = None
 
     # ----------------------------------------------------------------- real execution
     def new_interpreter(self):
@@ -64,6 +65,10 @@ class Runner:
             return type(e).__name__, None, e
         finally:
             probes.VAL.clear()
+        if op[0] in ('E', 'U') and step is not None and step.event is None:
+            # an eventless transition fired: the queued event is still pending; consume it with all
+            # guards false (transition-less step) so that the queue is not part of the state
+            self.leftover = it.execute_once()
         return ('step' if step is not None else 'none'), step, None
 
     def fresh(self, hist):
@@ -451,3 +456,47 @@ def oracle_history(R, ex):
 def _tdesc(m, tid):
     tr = m.trans[tid]
     return '%s->%s' % (tr['source'], tr.get('target') or '(internal)')
+
+
+def oracle_conflict(R, ex):
+    """C04: non-determinism and conflicts are reported, never silently resolved"""
+    out = []
+    if ex.op[0] != 'E':
+        if ex.exc is not None:
+            out.append(('spurious', '%s raised by %s' % (ex.outcome, ex.op)))
+        return out
+    m = R.model
+    fired, evless = expected_fired(R, ex)
+    cls = m.classify(fired) if len(fired) >= 2 else 'ok'
+    names = [_tdesc(m, i) for i in fired]
+    err = ex.outcome if ex.exc is not None else None
+    allowed = {
+        'ok': {None},
+        'nondet': {'NonDeterminismError'},
+        'conflict': {'ConflictingTransitionsError'},
+        'either': {'NonDeterminismError', 'ConflictingTransitionsError'},
+        'dontcare': {None, 'ConflictingTransitionsError'},
+    }[cls]
+    if err not in allowed:
+        if err is None:
+            out.append(('silent', 'selected %s (%s) but execute_once returned %s'
+                        % (names, cls, 'a step firing %s' % [_tdesc(m, R.tid(t)) for t in ex.step.transitions]
+                           if ex.step is not None else 'None')))
+        elif cls == 'ok':
+            out.append(('spurious', '%s raised for %s which are pairwise in distinct regions and stay '
+                        'inside them' % (err, names)))
+        else:
+            out.append(('wrongerror', '%s raised for %s, expected %s' % (err, names, sorted(allowed))))
+    if ex.exc is not None:
+        if set(ex.conf_after) != set(ex.conf_before) and ex.drain and ex.drain[0] != 'crash':
+            out.append(('effects', 'configuration changed by a failed step: %s -> %s'
+                        % (sorted(ex.conf_before), sorted(ex.conf_after))))
+        code = [e for e in ex.log if e[0] in ('en', 'ex', 'ac')]
+        if code:
+            out.append(('effects', 'code ran although %s was raised: %r' % (err, code)))
+        if ex.ctx_before != ex.ctx_after:
+            out.append(('effects', 'context changed by a failed step'))
+        if ex.drain != ('step', R.event, 0):
+            out.append(('effects', 'after %s the event is not pending any more: next step gave %r'
+                        % (err, ex.drain)))
+    return out
